@@ -1836,12 +1836,12 @@ void ArrayManager::declare_array(const ASTNode *node) {
         var.is_assigned = false;
 
         // 全次元のサイズを計算して平坦化された配列を作成
-        int total_size = 1;
         var.array_dimensions.clear();
         for (const ArrayDimension &dim : node->array_type_info.dimensions) {
-            total_size *= dim.size;
             var.array_dimensions.push_back(dim.size);
         }
+        // bounded 64-bit product (int[65536][65536] overflows an int product)
+        int total_size = calculateTotalSize(var.array_dimensions);
 
         var.array_size = total_size; // array_sizeを設定
 
